@@ -168,6 +168,23 @@ impl<const LIFE: bool> Insertable for Probe<calloop::stream::StreamSource<Manual
     }
 }
 
+impl<const LIFE: bool> Insertable for Probe<calloop::futures::Executor<i64>, LIFE> {
+    fn insert(self: Box<Self>, h: &Handle, w: &W, held: bool) -> InsertResult {
+        let s = self.id;
+        let w = w.clone();
+        let guard = CbGuard { s };
+        insert_generic(
+            *self,
+            move |v: i64, &mut (), _| {
+                let _g = &guard;
+                run_callback(&w, s, 0, json!(v));
+            },
+            h,
+            held,
+        )
+    }
+}
+
 impl<const LIFE: bool> Insertable for Probe<Timer, LIFE> {
     fn insert(self: Box<Self>, h: &Handle, w: &W, held: bool) -> InsertResult {
         let s = self.id;
@@ -253,6 +270,7 @@ pub struct Src {
     pub fds: Vec<i32>,
     pub last_tok: Option<usize>,
     pub stream: Option<Rc<RefCell<StreamState>>>,
+    pub scheds: Vec<calloop::futures::Scheduler<i64>>,
 }
 
 pub struct World {
@@ -263,6 +281,7 @@ pub struct World {
     pub srcs: BTreeMap<u32, Src>,
     pub idles: BTreeMap<u32, Option<Idle<'static>>>,
     pub progs: BTreeMap<String, Vec<Value>>,
+    pub futs: BTreeMap<i64, Rc<RefCell<FutState>>>,
     pub cbcount: BTreeMap<String, usize>,
     pub faults: Rc<Faults>,
     pub base: Instant,
@@ -385,6 +404,7 @@ pub fn build_source(spec: &Value, faults: &Rc<Faults>, base: Instant, tick: Dura
         fds: vec![],
         last_tok: None,
         stream: None,
+        scheds: vec![],
     };
     // "ondrop": the source's Drop calls LoopHandle::remove with its own (by then dead) token
     let ondrop = spec["ondrop"].as_u64().unwrap_or(0) != 0;
@@ -446,6 +466,14 @@ pub fn build_source(spec: &Value, faults: &Rc<Faults>, base: Instant, tick: Dura
             src.fds = after.into_iter().filter(|f| !before.contains(f)).collect();
             src.stream = Some(st);
             src.pending = Some(wrap!(source));
+        }
+        "exec" => {
+            let before = fdinfo::open_fds();
+            let (exec, sched) = calloop::futures::executor::<i64>().unwrap();
+            let after = fdinfo::open_fds();
+            src.fds = after.into_iter().filter(|f| !before.contains(f)).collect();
+            src.scheds.push(sched);
+            src.pending = Some(wrap!(exec));
         }
         "timer" => {
             let t = match spec.get("dl") {
@@ -539,6 +567,7 @@ pub fn build_dup_source(spec: &Value, of: &Src, c: usize, faults: &Rc<Faults>) -
         fds: vec![sock.as_raw_fd()],
         last_tok: None,
         stream: None,
+        scheds: vec![],
     }
 }
 
@@ -736,6 +765,74 @@ pub fn exec_op(w: &W, lp: Option<&mut Option<EventLoop<'static, ()>>>, op: &Valu
                 }
                 None => done!("nohandle"),
             }
+        }
+        "schedule" => {
+            let f = op["f"].as_i64().unwrap_or(0);
+            let sched = w.borrow().srcs.get(&s.unwrap()).and_then(|x| x.scheds.first().cloned());
+            let Some(sched) = sched else { done!("nohandle") };
+            let st = Rc::new(RefCell::new(FutState::default()));
+            w.borrow_mut().futs.insert(f, st.clone());
+            let weak = Rc::downgrade(w);
+            let sid = s.unwrap();
+            let fut = ManualFut {
+                s: sid,
+                f,
+                st,
+                on_poll: Box::new(move |f, k| {
+                    let Some(w) = weak.upgrade() else { return };
+                    let prog = w.borrow().progs.get(&format!("f{}", f)).and_then(|v| v.get(k as usize)).cloned();
+                    if let Some(ops) = prog.as_ref().and_then(|p| p.get("ops")).and_then(|o| o.as_array()) {
+                        for op in ops {
+                            exec_op(&w, None, op, sid as i64);
+                        }
+                    }
+                }),
+            };
+            match guard(|| sched.schedule(fut)) {
+                Ok(Ok(())) => done!("ok"),
+                Ok(Err(_)) => done!("destroyed"),
+                Err(msg) => {
+                    ret["msg"] = json!(msg);
+                    done!("panic")
+                }
+            }
+        }
+        "wake" | "complete" => {
+            let f = op["f"].as_i64().unwrap_or(0);
+            let st = w.borrow().futs.get(&f).cloned();
+            let Some(st) = st else { done!("nofuture") };
+            let waker = {
+                let mut b = st.borrow_mut();
+                if name == "complete" {
+                    b.ready = Some(op["v"].as_i64().unwrap_or(0));
+                }
+                b.waker.take()
+            };
+            match waker {
+                Some(wk) => {
+                    wk.wake();
+                    done!("ok")
+                }
+                None => done!("nowaker"),
+            }
+        }
+        "clone_sched" => {
+            let mut wb = w.borrow_mut();
+            let src = wb.srcs.get_mut(&s.unwrap()).unwrap();
+            let r = if let Some(x) = src.scheds.first().cloned() {
+                src.scheds.push(x);
+                "ok"
+            } else {
+                "nohandle"
+            };
+            drop(wb);
+            done!(r)
+        }
+        "drop_sched" => {
+            let x = w.borrow_mut().srcs.get_mut(&s.unwrap()).and_then(|x| x.scheds.pop());
+            let r = if x.is_some() { "ok" } else { "nohandle" };
+            drop(x);
+            done!(r)
         }
         "clone_sender" => {
             let mut wb = w.borrow_mut();
@@ -1058,6 +1155,7 @@ pub fn run_scenario(scn: &Value) {
         idles: BTreeMap::new(),
         progs,
         cbcount: BTreeMap::new(),
+        futs: BTreeMap::new(),
         faults: faults.clone(),
         base,
         tick,
@@ -1082,7 +1180,8 @@ pub fn run_scenario(scn: &Value) {
     }
     ev(
         "reset",
-        json!({"id": scn["id"], "srcs": decl, "tick_us": tick.as_micros() as u64, "epfd": epfd}),
+        json!({"id": scn["id"], "srcs": decl, "tick_us": tick.as_micros() as u64, "epfd": epfd,
+               "limit": scn["limit"].as_u64().unwrap_or(1024)}),
     );
     install_observer(&w);
     snapshot(&w);
@@ -1102,8 +1201,10 @@ pub fn run_scenario(scn: &Value) {
     let mut wb = w.borrow_mut();
     let srcs = std::mem::take(&mut wb.srcs);
     let idles = std::mem::take(&mut wb.idles);
+    let futs = std::mem::take(&mut wb.futs);
     drop(wb);
     drop(idles);
     drop(srcs);
+    drop(futs);
     ev("end", json!({"id": scn["id"]}));
 }
